@@ -16,6 +16,7 @@ import (
 	"path/filepath"
 	"reflect"
 	"regexp"
+	"sort"
 	"strconv"
 	"strings"
 	"text/template"
@@ -324,6 +325,9 @@ func (c *RootConfig) Initialize(ctx context.Context) error {
 		}
 	}
 
+	// Visit the most deeply nested packages first so that a sub-package always
+	// inherits from its nearest recursive ancestor, regardless of map order.
+	sort.Sort(sort.Reverse(sort.StringSlice(recursivePackages)))
 	for _, recursivePackageName := range recursivePackages {
 		pkgLog := log.With().Str(logging.LogKeyPackagePath, recursivePackageName).Logger()
 		pkgCtx := pkgLog.WithContext(ctx)
